@@ -245,6 +245,7 @@ type inc struct {
 	rejected       int
 	delivered      int
 	dlvs           []dlv
+	stallGate      chan struct{} // non-nil: underlying writes block until released or closed
 }
 
 func (c *inc) wake() {
@@ -348,7 +349,35 @@ func (c *inc) Read() ([]byte, error) {
 	}
 }
 
+// stallWrites makes every underlying Write on this incarnation block until releaseWrites is called or the incarnation is
+// closed (a peer that does not drain its socket).
+func (c *inc) stallWrites() {
+	c.mu.Lock()
+	if c.stallGate == nil {
+		c.stallGate = make(chan struct{})
+	}
+	c.mu.Unlock()
+}
+
+func (c *inc) releaseWrites() {
+	c.mu.Lock()
+	if c.stallGate != nil {
+		close(c.stallGate)
+		c.stallGate = nil
+	}
+	c.mu.Unlock()
+}
+
 func (c *inc) Write(bs []byte) error {
+	c.mu.Lock()
+	gate := c.stallGate
+	c.mu.Unlock()
+	if gate != nil {
+		select {
+		case <-gate:
+		case <-c.closedCh:
+		}
+	}
 	if d := c.w.writeLatency; d > 0 {
 		time.Sleep(d) // the write is on its way; a connection closed meanwhile fails it (real clock only)
 	}
